@@ -549,34 +549,6 @@ def enum_table() -> dict[str, str]:
     return esc._table("datamodel_code_generator.parser.base")
 
 
-def translate_esc(ck: Check) -> None:
-    """Regenerate Gen/EscTables through C10's translator. If that translator is out of step with /repo
-    (it also reads tables of other modules), keep the file as it is but insist that the one table C09's
-    theorems use is literally the table the code has now."""
-    from ..common import LEAN
-    from ..lean import lean_str
-
-    try:
-        ck.translate("EscTables", esc.generate())
-        return
-    except Exception as e:  # noqa: BLE001
-        ck.notes["esc_translator"] = f"vlib/translate/esc.py failed ({type(e).__name__}: {e}); enumTable checked textually instead"
-    rows = ",\n   ".join(f"(Char.ofNat {ord(k)}, {lean_str(v)})" for k, v in enum_table().items())
-    want = f"def enumTable : List (Char × List Char) :=\n  [{rows}]\n"
-    path = LEAN / "Dcg" / "Gen" / "EscTables.lean"
-    have = path.read_text()
-    if want in have:
-        ck.gen_files.append("EscTables (enumTable verified textually)")
-        return
-    import re
-
-    body = have.split("\n", 1)[1] if have.startswith("-- GENERATED") else have
-    patched, n = re.subn(r"def enumTable : List \(Char × List Char\) :=\n  \[.*?\]\n(?=\n)", lambda _m: want, body, count=1, flags=re.S)
-    if n != 1:
-        raise RuntimeError("Gen/EscTables.lean: enumTable definition not found and the esc translator cannot regenerate the file")
-    ck.translate("EscTables", patched)
-
-
 def case_of(w: dict) -> Case:
     c = Case(w.get("type"), w["enum"], w.get("x-enum-varnames"))
     if "default" in w:
@@ -630,7 +602,7 @@ def search_enums(ck: Check) -> None:
 def run(ck: Check) -> None:
     quick = ck.tier == "quick"
     ck.translate("Unicode", uni.generate())
-    translate_esc(ck)
+    ck.translate("EscTables", esc.generate())
     ck.prove()
     ck.assumptions += [
         "C07's assumptions (generated character tables, CaseOK for str.lower/upper, PrefixOK) for the member names",
